@@ -2,11 +2,18 @@
 //! (S->I) and records executions of the real code for TLC validation (I->S).
 mod backends;
 mod r_generic;
+mod r_iseq;
+mod r_iter;
+mod r_mm;
+mod r_pp;
 mod util;
 
 use serde_json::Value;
 use std::io::{BufRead, Write};
 use util::*;
+
+#[global_allocator]
+static GLOBAL: util::Counting = util::Counting;
 
 pub struct Args(Vec<String>);
 impl Args {
@@ -53,6 +60,45 @@ fn main() {
                 seed,
             };
             r_generic::replay(&vs, &rep, &o, threads);
+        }
+        "replay-iseq" => {
+            let vs = read_ndjson(args.val("--in").expect("--in"));
+            let tmp = args.val("--tmp").unwrap_or("/tmp/verif-iso").to_string();
+            let crashes = run_isolated(vs.len(), 2000, threads, &tmp, &rep, &|r, rep| {
+                let sub: Vec<Value> = vs[r.clone()].to_vec();
+                r_iseq::replay(&sub, rep, 1, seed.wrapping_add(r.start as u64));
+            });
+            for (i, st) in crashes {
+                rep.finding(Class::Oob, &format!("is_equal family: process died with {} (operands abut PROT_NONE pages)", describe_status(st)), serde_json::json!({"vector": vs[i]}));
+            }
+        }
+        "replay-mm" => {
+            let vs = read_ndjson(args.val("--in").expect("--in"));
+            let o = r_mm::Opts {
+                lifts: args.num("--lifts", 2) as usize,
+                groups: r_mm::Groups::parse(args.val("--groups").unwrap_or("all")),
+                seed,
+                force: args.val("--force").unwrap_or("avx2").to_string(),
+            };
+            r_mm::replay(&vs, &rep, &o, threads);
+        }
+        "replay-pp" => {
+            let vs = read_ndjson(args.val("--in").expect("--in"));
+            r_pp::replay_pp(&vs, &rep, threads, seed);
+        }
+        "replay-pair" => {
+            let vs = read_ndjson(args.val("--in").expect("--in"));
+            r_pp::replay_pair(&vs, &rep, threads, seed);
+        }
+        "replay-iter" => {
+            let vs = read_ndjson(args.val("--in").expect("--in"));
+            let o = r_iter::Opts {
+                variants: args.num("--variants", 1) as usize,
+                stretches: args.num("--stretches", 1) as usize,
+                only_top: args.flag("--only-top"),
+                seed,
+            };
+            r_iter::replay(&vs, &rep, &o, threads);
         }
         _ => {
             eprintln!("unknown command {cmd:?}");
